@@ -70,6 +70,12 @@ CLAIMED["C20"] = dict(
     technique="CBMC loop contracts + dfcc on extracted C of the PyImath kernel with an uninterpreted element operation; bounded unwinding stand-ins for masked kernels",
     ref="6/C20")
 
+CLAIMED["C11"] = dict(
+    text="Proof for the combinatorial and structural clauses: Euler<float> members are extracted (bit-fields kept) and put under contract: setOrder decodes the documented ABCD encoding, order() re-encodes it, the 24 orders are legal, angleOrder is the (anti)cyclic permutation starting at the initial axis, angleMapping a permutation; lemmas over the real functions for all 24 orders and all angles: order() returns the order set, angleMapping is the inverse of angleOrder, setXYZVector/toXYZVector are mutually inverse slot permutations; toMatrix33() and toMatrix44() (two textual copies of the Shoemake formulas) hold the same rotation block for all 24 orders with sin/cos and arithmetic uninterpreted.",
+    note="Trusted: clang AST + cxx2c (differentially validated incl. bit-fields), cbmc SAT. Not covered: toMatrix against the product of elementary rotations, toQuat, extract round trips / gimbal lock, extract 3x3 vs 4x4 (time-out), angleMod/makeNear, extractEuler*.",
+    technique="CBMC function contracts (dfcc) + relational lemma harness with uninterpreted arithmetic on extracted C, SAT, all 24 orders",
+    ref="6/C11")
+
 NA = {
 }
 
